@@ -2079,7 +2079,7 @@ def preprocess_file(
             i0 = 0
             out_line = ""
             for match in FRegex.DEFINED.finditer(line):
-                if match.group(1) in defs:
+                if match.group("name") in defs:
                     out_line += line[i0 : match.start(0)] + "(@$@)"
                 else:
                     out_line += line[i0 : match.start(0)] + "(%$%)"
